@@ -40,9 +40,10 @@ func specDnlKey(name enc.Name, nonce uint32) uint64 { return enc.SpecNameHash(na
 //
 //@ func (*DeadNonceList).RemoveExpiredEntries
 //@   requires d.list != nil
-//@   modifies d.list[*], d.expirationQueue.pq
+//@   modifies d.list[*], d.expirationQueue.pq, d.expirationQueue.pq[*]
 //@   ensures forall(func(k uint64) bool { return mapHas(d.list, k) ==> old(mapHas(d.list, k)) })
 //@   loop 1 invariant 0 <= evicted && evicted < 100 && forall(func(k uint64) bool { return mapHas(d.list, k) ==> old(mapHas(d.list, k)) })
+//@   loop 1 invariant sliceArr(d.expirationQueue.pq) == old(sliceArr(d.expirationQueue.pq))
 //@   loop 1 decreases 100 - evicted
 
 // ---------------------------------------------------------------------------------------
